@@ -66,9 +66,29 @@ def np_loglik_terms(dist, levels, scale, y, mu, w):
     raise ValueError(dist)
 
 
-def np_loglik(dist, levels, scale, y, mu, w, poisson_gam):
+def np_loglik(dist, levels, scale, y, mu, w, poisson_gam, f32=False):
+    """f32=False: the documented densities in closed form, double precision throughout.
+    f32=True: scipy.stats with the documented parameterisation (norm: sd = sqrt(scale / w); gamma: a = w / scale,
+    scale = mu / a; invgauss: mean mu, shape w / scale) and the sample weights in the float32 dtype in which fit /
+    loglikelihood store them.  NumPy then evaluates w / scale in float32 and SciPy evaluates the normalisers
+    (gammaln, log) of a float32 shape parameter in single precision, so this variant differs from the
+    double-precision formula by ~1e-7..1e-5 relative: counted as a suspected (precision) defect, see run()."""
+    import scipy.stats as st
     if poisson_gam:
         y = np.round(y * w)
+    if f32 and dist in ('normal', 'gamma', 'inv_gauss'):
+        w32 = np.asarray(w, dtype=np.float32)
+        s_ = np.float64(scale)
+        with np.errstate(all='ignore'):
+            if dist == 'normal':
+                t = st.norm.logpdf(y, loc=mu, scale=(s_ / w32) ** 0.5)
+            elif dist == 'gamma':
+                nu = w32 / s_
+                t = st.gamma.logpdf(x=y, a=nu, scale=mu / nu)
+            else:
+                g = w32 / s_
+                t = st.invgauss.logpdf(y, mu / g, scale=g)
+        return np.float64(np.sum(t))
     return np.float64(np.sum(np_loglik_terms(dist, levels, scale, y, mu, w)))
 
 
@@ -186,6 +206,7 @@ def _worker(case):
     con['k'] = int(k)
     con['k_ok'] = bool(k == min(int(keep.sum()), m))
     res['contracts'] = con
+    res['a_ok'] = bool(con['EtE'] <= 1e-8)
 
     # ---------------- independent oracle
     orc = {}
@@ -234,9 +255,12 @@ def _worker(case):
         scale_o = np.float64(known) if known is not None else pear / (n - edof)
         orc['scale'] = scale_o
         sc = np.float64(impl['scale'])       # the scale the remaining formulas are documented in terms of
-        ll_o = np_loglik(dist, levels, sc, yv, mu, wv, poisson_gam)
+        weighted = w is not None
+        ll_doc = np_loglik(dist, levels, sc, yv, mu, wv, poisson_gam)
+        ll_o = np_loglik(dist, levels, sc, yv, mu, wv, poisson_gam, f32=weighted)
         mu0 = np.full(n, yv.mean())
-        ll0_o = np_loglik(dist, levels, sc, yv, mu0, wv, poisson_gam)
+        ll0_o = np_loglik(dist, levels, sc, yv, mu0, wv, poisson_gam, f32=weighted)
+        orc['ll_doc'] = ll_doc
         D = np_total_dev(dist, levels, yv, mu, wv)
         D0 = np_total_dev(dist, levels, yv, mu0, wv)
         orc.update(ll=ll_o, ll0=ll0_o, D=D, D0=D0)
@@ -330,8 +354,9 @@ def _worker(case):
         with np.errstate(all='ignore'):
             mu0e = np.full(len(ye), ye.mean())
             ent['mu0'] = mu0e
-            ent['ll_o'] = np_loglik(dist, levels, impl['scale'], ye, mue, we_, poisson_gam)
-            ent['ll0_o'] = np_loglik(dist, levels, impl['scale'], ye, mu0e, we_, poisson_gam)
+            ent['ll_doc'] = np_loglik(dist, levels, impl['scale'], ye, mue, we_, poisson_gam)
+            ent['ll_o'] = np_loglik(dist, levels, impl['scale'], ye, mue, we_, poisson_gam, f32=ent['weighted'])
+            ent['ll0_o'] = np_loglik(dist, levels, impl['scale'], ye, mu0e, we_, poisson_gam, f32=ent['weighted'])
             dv = we_ * fitgen.np_deviance(dist, levels, ye, mue)
             ent['r0_o'] = np.sign(ye - mue) * np.sqrt(dv)
             ent['r1_o'] = np.sign(ye - mue) * np.sqrt(dv / impl['scale'])
@@ -350,8 +375,8 @@ def _bits(a):
     return ' '.join(common.f2bits(v) for v in np.asarray(a, dtype=float).ravel())
 
 
-def _close(a, b, tol):
-    """nan / inf aware: both nan, or equal, or within tol"""
+def _close(a, b, tol, rtol=0.0):
+    """nan / inf aware: both nan, or equal, or within tol + rtol * size"""
     if a is None or b is None:
         return a is None and b is None
     a, b = float(a), float(b)
@@ -361,7 +386,26 @@ def _close(a, b, tol):
         return (a != a) and (b != b)
     if np.isinf(a) or np.isinf(b):
         return False
-    return abs(a - b) <= tol
+    if not np.isfinite(tol):
+        tol = 0.0
+    return abs(a - b) <= tol + rtol * max(abs(a), abs(b))
+
+
+def _resid_ok(a, b, tol):
+    """deviance residuals compared through their signed squares (the weighted unit deviances); a NaN on one side is
+    accepted where the other side is a zero within rounding (a unit deviance that rounds to -1e-17 has a NaN root)"""
+    with np.errstate(all='ignore'):
+        sa, sb = _sgn_sq(a), _sgn_sq(b)
+        ok = (np.abs(sa - sb) <= tol) | (np.isnan(a) & np.isnan(b)) | (a == b)
+        ok |= np.isnan(a) & (np.abs(sb) <= tol)
+        ok |= np.isnan(b) & (np.abs(sa) <= tol)
+    return ok
+
+
+def _ll_tol(ll, n, wmax, scale):
+    with np.errstate(all='ignore'):
+        t = 1e-8 * (1 + abs(np.float64(ll))) + 1e-9 * n * (1 + np.float64(wmax) / abs(np.float64(scale)))
+    return float(t) if np.isfinite(t) else 0.0
 
 
 def _scalar_tols(r):
@@ -379,8 +423,10 @@ def _scalar_tols(r):
         t['UBRE'] = None if O['UBRE'] is None else 1e-8 * (abs(O['D']) / n + abs(2 * GAMMA * edof * sc / n)) + O['dtol'] / n
         q = abs(O['D'] / O['D0']) if O['D0'] else float('inf')
         t['explained'] = 1e-8 * (1 + q) + (O['dtol'] + q * O['d0tol']) / abs(O['D0']) if O['D0'] else 0.0
-        t['mcf'] = 1e-8 * (1 + abs(ll / O['ll0'])) if O['ll0'] else 0.0
-        t['mcfadj'] = 1e-8 * (1 + abs((ll - edof) / O['ll0']) + abs(edof / O['ll0'])) if O['ll0'] else 0.0
+        # the null log-likelihood is recomputed (the fitted one is passed through): its own rounding enters the ratios
+        l0t = _ll_tol(O['ll0'], n, np.max(r['w']), sc) / abs(O['ll0']) if O['ll0'] else 0.0
+        t['mcf'] = (1e-8 + l0t) * (1 + abs(ll / O['ll0'])) if O['ll0'] else 0.0
+        t['mcfadj'] = (1e-8 + l0t) * (1 + abs((ll - edof) / O['ll0']) + abs(edof / O['ll0'])) if O['ll0'] else 0.0
         t['deviance'] = 1e-8 * abs(O['deviance']) + O['dtol'] / abs(sc)
     for k_, v in t.items():
         if v is not None and not np.isfinite(v):
@@ -398,13 +444,16 @@ def _oracle_findings(r, margin=10.0):
     n, m = r['n'], r['m']
     bad = []
     tols = _scalar_tols(r)
+    zero_scale = (I['scale'] == 0)      # perfect fit with an estimated scale: every scaled deviance is 0/0 (see run())
     for s_ in SCALARS:
         tol = tols[s_]
-        if not _close(I[s_], O[s_], (tol or 0.0) * margin):
+        if zero_scale and s_ in ('explained', 'deviance'):
+            continue
+        if not _close(I[s_], O[s_], (tol or 0.0) * margin, rtol=1e-9 * margin):
             bad.append((s_, I[s_], O[s_], 'tol %.3g' % ((tol or 0.0) * margin)))
     # log-likelihood against the closed-form densities
     if np.isfinite(I['ll']) or np.isfinite(O['ll']):
-        tol = 1e-8 * (1 + abs(O['ll'])) + 1e-9 * n * (1 + float(np.max(r['w'])) / abs(I['scale']))
+        tol = _ll_tol(O['ll'], n, np.max(r['w']), I['scale'])
         if not _close(I['ll'], O['ll'], tol * margin):
             bad.append(('loglikelihood', I['ll'], O['ll'], 'tol %.3g' % (tol * margin)))
     if I['n_samples'] != n:
@@ -426,7 +475,7 @@ def _oracle_findings(r, margin=10.0):
         bad.append(('edof_per_coef', [float(epc.min()), float(epc.max()), float(epc.sum())], 'entries in [0,1] summing to edof', ''))
     if r['converged']:
         thr = max(1e-6, 10 * EPS * r['cond'])
-        if thr <= 1e-3:
+        if thr <= 1e-3 and r['a_ok']:
             e_or = O['edof_qr']
             if not abs(I['edof'] - e_or) <= thr * margin * max(1.0, abs(e_or)):
                 bad.append(('edof', I['edof'], e_or, 'trace of the influence matrix (QR form; dense form %.12g), tol %.3g' % (O['edof_dense'], thr * margin)))
@@ -454,21 +503,23 @@ def _oracle_findings(r, margin=10.0):
         if ent['status'] != 'ok':
             continue
         for nm_, key in (('deviance_residuals', 'r0'), ('deviance_residuals(scaled)', 'r1')):
+            if zero_scale and key == 'r1':
+                continue
             a, bq = ent[key], ent[key + '_o']
-            sc_ = 1.0 if key == 'r0' else 1.0 / abs(r['impl']['scale'])
-            tol = 1e-8 * np.abs(_sgn_sq(bq)) + 1e-11 * ent['mag'] * sc_
-            ok = (np.abs(_sgn_sq(a) - _sgn_sq(bq)) <= tol * margin) | (np.isnan(a) & np.isnan(bq)) | (a == bq)
+            sc_ = 1.0 if key == 'r0' else float(np.nan_to_num(1.0 / abs(np.float64(r['impl']['scale'])), posinf=0.0))
+            tol = 1e-8 * np.nan_to_num(np.abs(_sgn_sq(bq)), nan=0.0, posinf=0.0) + 1e-11 * ent['mag'] * sc_
+            ok = _resid_ok(a, bq, tol * margin)
             if not ok.all():
                 i = int(np.argmin(ok))
                 bad.append(('%s/%s' % (nm_, ent['name']), float(a[i]), float(bq[i]), 'row %d' % i))
-        if not _close(ent['expl'], ent['expl_o'], (ent['expl_tol'] if np.isfinite(ent['expl_tol']) else 0.0) * margin):
+        if not zero_scale and not _close(ent['expl'], ent['expl_o'], ent['expl_tol'] * margin, rtol=1e-8 * margin):
             bad.append(('score/%s' % ent['name'], ent['expl'], ent['expl_o'], 'explained deviance'))
         if 'acc' in ent:
             for kk in ('acc', 'acc_mu', 'score'):
                 if not _close(ent[kk], ent['acc_o'], 1e-12):
                     bad.append(('accuracy(%s)/%s' % (kk, ent['name']), ent[kk], ent['acc_o'], ''))
         if np.isfinite(ent['ll']) or np.isfinite(ent['ll_o']):
-            tol = 1e-8 * (1 + abs(ent['ll_o'])) + 1e-9 * len(ent['y']) * (1 + float(np.max(ent['w'])) / abs(r['impl']['scale']))
+            tol = _ll_tol(ent['ll_o'], len(ent['y']), np.max(ent['w']), r['impl']['scale'])
             if not _close(ent['ll'], ent['ll_o'], tol * margin):
                 bad.append(('loglikelihood()/%s' % ent['name'], ent['ll'], ent['ll_o'], 'tol %.3g' % (tol * margin)))
     if r['evals'] and r['evals'][0]['status'] == 'ok':
@@ -601,6 +652,13 @@ def run(ctx):
         ctx.case(st_con, sig, nontrivial=nontriv)
         cbad = ([k for k in ('QtQ', 'UtU', 'UUt', 'VtV', 'U1') if con[k] > 1e-9] + [k for k in ('QR', 'EtE', 'SVD') if con[k] > 1e-8]
                 + (['dmin'] if not con['dmin'] > 0 else []) + ([] if con['k_ok'] else ['k']))
+        if 'EtE' in cbad and r['has_constraint']:
+            # the constraint matrix C(coef) is piecewise constant in coef: the exported A is built at the final coef_, the E of
+            # the last iteration at the coefficients entering it; when the active set differs the exported A is not the
+            # penalty of the final regression and the solve stream cannot be judged
+            cbad.remove('EtE')
+            judged = False
+            ctx.count('conditioning', 'constraint active set changed in the last iteration (solve not judged)')
         mp_bad = [w_['term'] for w_ in r['wald'] if 'mp1' in w_ and w_['mp1'] > 1e-7]
         if mp_bad:
             ctx.count('pinv', 'C P C = C not met to 1e-7 (ill-conditioned block)')
@@ -613,6 +671,11 @@ def run(ctx):
 
         # ---- oracle
         ctx.case(st_or, sig, nontrivial=nontriv, sample=small)
+        if np.isfinite(I['ll']) and not _close(I['ll'], O['ll_doc'], _ll_tol(O['ll_doc'], r['n'], np.max(r['w']), I['scale'])):
+            if _close(I['ll'], O['ll'], _ll_tol(O['ll'], r['n'], np.max(r['w']), I['scale'])):
+                ctx.count('suspected-defect', 'log-likelihood (hence AIC, AICc, McFadden) of a weighted %s fit carries float32 rounding of weights/scale: rel. error > 1e-8 vs the double-precision formula' % c['dist'])
+        if I['scale'] == 0:
+            ctx.count('suspected-defect', 'estimated scale is exactly 0 (interpolating fit): explained deviance / score / statistics_[deviance] / scaled residuals are 0/0 = NaN instead of 1 / 0')
         bad = _oracle_findings(r, margin=10.0)
         oracle_bad = bool(bad)
         if bad:
@@ -648,7 +711,7 @@ def run(ctx):
                 covM = np.array([common.bits2f(t) for t in parts[3]]).reshape(r['m'], r['m'])
                 tols = _scalar_tols(r)
                 model = dict(zip(SCALARS, sc))
-                dis = [s_ for s_ in SCALARS if not _close(I[s_], model[s_], tols[s_] or 0.0)]
+                dis = [s_ for s_ in SCALARS if not _close(I[s_], model[s_], tols[s_] or 0.0, rtol=1e-9)]
                 if dis and not oracle_bad:
                     ctx.disagree(st_cf, sig, {s_: I[s_] for s_ in dis}, {s_: model[s_] for s_ in dis}, 'closed-form statistics differ: %s' % dis)
                 if r['converged']:
@@ -675,17 +738,20 @@ def run(ctx):
                 dis = []
                 for key, rm in (('r0', r0M), ('r1', r1M)):
                     a = ent[key]
-                    sc_ = 1.0 if key == 'r0' else 1.0 / abs(I['scale'])
-                    tol = 1e-8 * np.abs(_sgn_sq(rm)) + 1e-11 * ent['mag'] * sc_
-                    ok = (np.abs(_sgn_sq(a) - _sgn_sq(rm)) <= tol) | (np.isnan(a) & np.isnan(rm)) | (a == rm)
+                    sc_ = 1.0 if key == 'r0' else float(np.nan_to_num(1.0 / abs(np.float64(I['scale'])), posinf=0.0))
+                    tol = 1e-8 * np.nan_to_num(np.abs(_sgn_sq(rm)), nan=0.0, posinf=0.0) + 1e-11 * ent['mag'] * sc_
+                    ok = _resid_ok(a, rm, tol)
                     if not ok.all():
                         dis.append('%s row %d: %r vs %r' % (key, int(np.argmin(ok)), float(a[int(np.argmin(ok))]), float(rm[int(np.argmin(ok))])))
-                if not _close(ent['expl'], scoreM, ent['expl_tol'] if np.isfinite(ent['expl_tol']) else 0.0):
+                if not _close(ent['expl'], scoreM, ent['expl_tol'], rtol=1e-8):
                     dis.append('score %r vs %r' % (ent['expl'], scoreM))
                 if 'acc' in ent and not (_close(ent['acc'], accM, 1e-12) and _close(ent['score'], accM, 1e-12) and _close(ent['acc_mu'], accM, 1e-12)):
                     dis.append('accuracy %r vs %r' % (ent['acc'], accM))
                 if np.isfinite(ent['ll']) and np.isfinite(ent['ll0_o']) and np.isfinite(kdM):
-                    tol = 1e-8 * (1 + abs(ent['ll']) + abs(ent['ll0_o'])) + 1e-9 * len(ent['y']) * (1 + float(np.max(ent['w'])) / abs(I['scale']))
+                    tol = _ll_tol(abs(ent['ll']) + abs(ent['ll0_o']), len(ent['y']), np.max(ent['w']), I['scale'])
+                    if ent['weighted'] and c['dist'] in ('normal', 'gamma', 'inv_gauss'):
+                        # the implementation evaluates w / scale in float32 (see np_loglik): allow that rounding here
+                        tol += 3e-7 * (abs(ent['ll']) + abs(ent['ll0_o']) + abs(kdM) + len(ent['y']) * (1 + float(np.max(ent['w'])) / abs(np.float64(I['scale']))))
                     if not abs((ent['ll'] - ent['ll0_o']) - kdM) <= tol:
                         dis.append('loglikelihood - null %r vs kernel difference %r' % (ent['ll'] - ent['ll0_o'], kdM))
                 else:
